@@ -6,8 +6,16 @@ from mirsmt.terms import *
 from mirsmt import symex
 
 # accessors whose disagreement can be confirmed natively (mrun hook `zdt_wrapper_vs_twin`)
-ACCESSORS = ["year", "month", "day", "hour", "minute", "second", "millisecond", "microsecond", "nanosecond"]
-PROBE_INSTANTS = [1_234_567_891_234_567_891, 951_782_400_000_000_000 + 86_399_987_654_321, -1]
+ACCESSORS = ["year", "month", "day", "hour", "minute", "second", "millisecond", "microsecond", "nanosecond",
+             "day_of_week", "day_of_year", "week_of_year", "year_of_week", "days_in_week", "days_in_month", "days_in_year",
+             "months_in_year", "in_leap_year", "hours_in_day", "offset_nanoseconds", "since", "until", "start_of_day", "add", "subtract"]
+# probe receivers for the native confirmation (fixed-offset zone +05:30): arbitrary instants, ISO-week year edges
+# (2024-12-30, 2021-01-02), a month end (2024-05-31)
+PROBE_INSTANTS = [1_234_567_891_234_567_891, 951_782_400_000_000_000 + 86_399_987_654_321, -1,
+                  1_735_560_000_000_000_000, 1_609_574_400_000_000_000, 1_717_113_600_000_000_000]
+# wrappers this syntactic check cannot execute (strings, closures over trait objects); a wrapper missing from the
+# covered set without being listed here makes the job inconclusive instead of silently shrinking the claim
+EXPECTED_UNCOVERED = {"zoneddatetime::fmt", "zoneddatetime::with_plain_time"}
 
 
 def wrappers(ex):
@@ -29,6 +37,7 @@ def compiled_wiring(io):
                                               [symex.Int(i, "u8"), symex.Int(ns, "i128"), symex.Int(330, "i16")]))
                 same = same and (r.f[0].t == r.f[1].t)
             io.prove("C19.compiled.zoneddatetime.%s.forwards_to_own_twin" % acc, same)
+            io.prove("C19.compiled.zoneddatetime.%s.forwards_to_own_twin.calls_own_twin_with_own_arguments" % acc, same)
         return
     ex = io.s.ex
     ex.opaque_calls = re.compile(r"_with_provider$")
@@ -61,6 +70,10 @@ def compiled_wiring(io):
             continue
         io.prove(label, own and same_args and direct)
         covered += 1
+    names = sorted(x.split(" ")[0] for x in skipped if "result post-processed" not in x)
+    unexpected = [n for n in names if n not in EXPECTED_UNCOVERED]
+    if unexpected:
+        raise symex.NotEncodable("wrappers no longer covered by the wiring check: " + ", ".join(unexpected))
     io.prove("C19.compiled.some_wrappers_covered", covered >= 20)
     io.witness("C19.compiled.reach")
 
